@@ -18,7 +18,9 @@ def schema():
         'fz': T.ArrayType('float64[0]', subtype=T.FLOAT64, length=0), 'f1': T.ArrayType('float64[1]', subtype=T.FLOAT64, length=1),
         'm': inner, 'ms': T.ArrayType('Inner[]', subtype=inner), 'mf': T.ArrayType('Inner[2]', subtype=inner, length=2),
         'os': T.ArrayType('Other[]', subtype=other), 'bs': T.ArrayType('bool[]', subtype=T.BOOLEANS),
-        'gg': T.ArrayType('Inner[][]', subtype=T.ArrayType('Inner[]', subtype=inner))},
+        'gg': T.ArrayType('Inner[][]', subtype=T.ArrayType('Inner[]', subtype=inner)),
+        'ra': T.ArrayType('RowA[]', subtype=T.MessageType('RowA', fields={'items': T.ArrayType('Inner[]', subtype=inner)})),
+        'rb': T.ArrayType('RowB[]', subtype=T.MessageType('RowB', fields={'items': T.ArrayType('Other[]', subtype=other)}))},
         constants={'K': (T.UINT8, 7)})
     return {'t': m, 'u': m, 'w': other}
 
